@@ -56,6 +56,47 @@ _HAS_RELATIVE_INSTRUCTION = set(
 )
 
 
+def _verif_on():
+    # verification hook (guard PYTRAPIC_VERIF=1)
+    import os
+
+    return os.environ.get("PYTRAPIC_VERIF") == "1"
+
+
+def _verif_snapshot(code):
+    """Instruction list as plain data: opcode, output, operands (register name or value),
+    owning function and source position.  Used only when PYTRAPIC_VERIF=1."""
+    out = []
+    for line in code:
+        ops = []
+        for inp in line.inputs:
+            v = getattr(inp, "value", inp)
+            if isinstance(v, IC10Register):
+                ops.append({"reg": v.code_expr if isinstance(v.code_expr, (str, int, float)) else repr(v.code_expr), "name": str(v.name)})
+            elif isinstance(v, bool) or v is None or isinstance(v, (int, float, str)):
+                ops.append({"val": v, "type": type(v).__name__})
+            else:
+                ops.append({"val": repr(v), "type": type(v).__name__})
+        o = line.output
+        if isinstance(o, IC10Register):
+            o = {"reg": o.code_expr if isinstance(o.code_expr, (str, int, float)) else repr(o.code_expr), "name": str(o.name)}
+        elif o is not None:
+            o = {"val": repr(o), "type": type(o).__name__}
+        node = line.node
+        out.append(
+            {
+                "op": line.op,
+                "out": o,
+                "in": ops,
+                "owner": getattr(line, "_verif_owner", None),
+                "line": getattr(node, "lineno", None),
+                "col": getattr(node, "col_offset", None),
+                "node": type(node).__name__ if node is not None else None,
+            }
+        )
+    return out
+
+
 def is_branch(op: str) -> bool:
     return op.startswith("b") or op in ["j", "jal"]
 
@@ -1152,9 +1193,20 @@ class CompilerPassGatherCode(CompilerPass):
             if fname == "" or func.is_called:
                 for line in func.code:
                     self.code.append(line)
+                    if _verif_on():
+                        line._verif_owner = fname
 
+        if _verif_on():
+            _verif_pre = _verif_snapshot(self.code)
         self.used_registers = assign_registers(self.data, self.code)
         self.get_code()
+        if _verif_on() and isinstance(self.data.result, dict):
+            self.data.result["_verif"] = {
+                "vcode": _verif_pre,
+                "regalloc": getattr(self.data, "_verif_regalloc", None),
+                "used_registers": list(self.used_registers),
+                "final": _verif_snapshot(self.code),
+            }
 
     def remove_labels(
         self, code, relative_numbers: bool = False, keep_labels: set | None = None
